@@ -81,6 +81,15 @@ func (f *FSMSnapshot) Persist(sink raft.SnapshotSink) (retError error) {
 		return err
 	}
 	if f.Finalizer != nil {
+		// The Finalizer records that the on-disk database is equivalent to the
+		// newest snapshot in the Snapshot Store, so that snapshot must be fully
+		// installed first. Otherwise a crash between the two leaves a valid
+		// fingerprint alongside an older snapshot, and the next start would skip
+		// the restore yet replay log entries the database already contains. Raft
+		// calls Close again after Persist returns, which is a no-op on a closed sink.
+		if err := sink.Close(); err != nil {
+			return err
+		}
 		return f.Finalizer()
 	}
 	return nil
